@@ -389,12 +389,13 @@ class Pair:
             return []
 
 
-def shrink_case(case, still_fails, fixed_prefix=0, budget=300):
-    """ddmin over op lines (the first `fixed_prefix` lines are kept)."""
+def shrink_case(case, still_fails, fixed_prefix=0, budget=300, wall=240):
+    """ddmin over op lines (the first `fixed_prefix` lines are kept); at most `budget` re-runs and `wall` seconds."""
     head, body = case[:fixed_prefix], case[fixed_prefix:]
     n = 2
     calls = 0
-    while len(body) >= 2 and calls < budget:
+    t0 = time.time()
+    while len(body) >= 2 and calls < budget and time.time() - t0 < wall:
         chunk = max(1, len(body) // n)
         reduced = False
         for i in range(0, len(body), chunk):
@@ -405,7 +406,7 @@ def shrink_case(case, still_fails, fixed_prefix=0, budget=300):
                 n = max(n - 1, 2)
                 reduced = True
                 break
-            if calls >= budget:
+            if calls >= budget or time.time() - t0 >= wall:
                 break
         if not reduced:
             if chunk == 1:
